@@ -1,3 +1,384 @@
-From Coq Require Import List ZArith QArith Bool.
+(* C17 -- centroid functions locate symmetric sources exactly and act per source.
+   Property theorems only; each is closed by [exact] of a lemma of C17_Proofs.
+
+   Vocabulary (C17_Proofs): [rect ny nx im] = im has ny rows of nx pixels;
+   [pixd data y x] = pixel (row y, column x), [None] when non-finite; [pixm mask y x] =
+   its mask bit; [weight data mask y x] = the pixel value if the pixel is unmasked and
+   finite, 0 otherwise; [sum2 ny nx f] = sum over all pixels of [f y x];
+   [com_spec ny nx w] = (sum x*w / sum w, sum y*w / sum w) as exact fractions
+   ([ComAt xn yn t] denotes the point (xn/t, yn/t); [ComNaN] when sum w = 0).
+   [flipx]/[flipy]/[transpose]/[scale k] are data[:, ::-1], data[::-1, :], data.T, k*data.
+   The model ([C17_Model]) mirrors photutils/centroids/core.py with
+   fixes/C17-1-centroid-sources-per-source-kwargs.patch applied; the loop before the
+   repair is [sources_unrepaired].
+
+   Not covered by theorems (tested only, see harness/c17.py): centroid_1dg / centroid_2dg
+   (astropy fitters) and the symmetry / flip / transposition / rescaling behaviour of
+   centroid_quadratic, which depend on numpy.linalg.lstsq. *)
+From Coq Require Import List ZArith QArith Bool Permutation.
 From PV Require Import lib.Cases C17_Model C17_Proofs.
 Import ListNotations.
+Open Scope Z_scope.
+
+(* ================================================================== *)
+(* centroid_com                                                         *)
+(* ================================================================== *)
+
+(* centroid_com = intensity-weighted mean pixel coordinate of the unmasked finite
+   pixels, (nan, nan) exactly when their total is zero *)
+Theorem com_is_weighted_mean : forall data mask ny nx,
+  rect ny nx data -> mask_rect ny nx mask ->
+  com data mask =
+    let T := sum2 ny nx (weight data mask) in
+    if T =? 0 then ComNaN
+    else ComAt (sum2 ny nx (fun y x => Z.of_nat x * weight data mask y x))
+               (sum2 ny nx (fun y x => Z.of_nat y * weight data mask y x)) T.
+Proof. exact com_weighted_mean. Qed.
+Print Assumptions com_is_weighted_mean.
+
+(* the only error: a mask whose shape differs from the data's *)
+Theorem com_raises_iff_shape_mismatch : forall data mask,
+  com data mask = ComRaise <-> exists m, mask = Some m /\ same_shape data m = false.
+Proof. exact com_raise_iff. Qed.
+Print Assumptions com_raises_iff_shape_mismatch.
+Theorem same_shape_is_shape_equality : forall (a : img (option Z)) (b : img bool),
+  same_shape a b = true <->
+  length a = length b /\ forall y, (y < length a)%nat -> length (nth y a []) = length (nth y b []).
+Proof. exact (@same_shape_spec (option Z) bool). Qed.
+Print Assumptions same_shape_is_shape_equality.
+
+(* the values under the mask do not matter (they may even be non-finite) *)
+Theorem com_ignores_masked_values : forall data data' m ny nx,
+  rect ny nx data -> rect ny nx data' -> rect ny nx m ->
+  (forall y x, (y < ny)%nat -> (x < nx)%nat -> pixm (Some m) y x = false ->
+               pixd data y x = pixd data' y x) ->
+  com data (Some m) = com data' (Some m).
+Proof. exact com_masked_values_ignored. Qed.
+Print Assumptions com_ignores_masked_values.
+
+(* a source that is invariant under the point reflection through c = (ax/2, ay/2)
+   (integer or half-integer centre, anywhere, weights zero outside the image) and has a
+   non-zero total is located exactly at c *)
+Theorem com_point_symmetric_centre : forall data mask ny nx ay ax xn yn t,
+  rect ny nx data -> mask_rect ny nx mask ->
+  (forall y x : Z, wZ data mask y x = wZ data mask (ay - y) (ax - x)) ->
+  com data mask = ComAt xn yn t ->
+  2 * xn = ax * t /\ 2 * yn = ay * t.
+Proof. exact com_point_symmetric. Qed.
+Print Assumptions com_point_symmetric_centre.
+
+(* flips mirror the centroid: x -> nx-1-x, y -> ny-1-y.
+   [mirror_x nx (ComAt xn yn t)] = [ComAt ((nx-1)*t - xn) yn t], [mirror_y ny] likewise on
+   yn, [swap_xy (ComAt xn yn t)] = [ComAt yn xn t], [scale_res k (ComAt xn yn t)] =
+   [ComAt (k*xn) (k*yn) (k*t)]; all four leave ComNaN / ComRaise unchanged *)
+Theorem com_flip_x : forall data mask ny nx,
+  rect ny nx data -> mask_rect ny nx mask ->
+  com (flipx data) (flipx_mask mask) = mirror_x nx (com data mask).
+Proof. exact com_flipx. Qed.
+Print Assumptions com_flip_x.
+Theorem com_flip_y : forall data mask ny nx,
+  rect ny nx data -> mask_rect ny nx mask ->
+  com (flipy data) (flipy_mask mask) = mirror_y ny (com data mask).
+Proof. exact com_flipy. Qed.
+Print Assumptions com_flip_y.
+
+(* transposition swaps the coordinates *)
+Theorem com_transposition : forall data mask ny nx,
+  rect ny nx data -> mask_rect ny nx mask ->
+  com (transpose None nx data) (transpose_mask nx mask) = swap_xy (com data mask).
+Proof. exact com_transpose. Qed.
+Print Assumptions com_transposition.
+
+(* rescaling: an integer factor k <> 0 multiplies numerators and total alike ... *)
+Theorem com_rescaling : forall k data mask ny nx,
+  k <> 0 -> rect ny nx data -> mask_rect ny nx mask ->
+  com (scale k data) mask = scale_res k (com data mask).
+Proof. exact com_scale. Qed.
+Print Assumptions com_rescaling.
+(* ... hence data' = (p/q) * data has the same centroid as data *)
+Theorem com_rescaling_rational : forall p q data data' mask ny nx,
+  p <> 0 -> q <> 0 -> rect ny nx data -> rect ny nx data' -> mask_rect ny nx mask ->
+  scale q data' = scale p data ->
+  same_centroid (com data' mask) (com data mask).
+Proof. exact com_scale_rational. Qed.
+Print Assumptions com_rescaling_rational.
+
+(* ================================================================== *)
+(* centroid_quadratic                                                   *)
+(* ================================================================== *)
+Open Scope Q_scope.
+
+(* the acceptance test of lines 319-324 is exactly negative definiteness of the Hessian *)
+Theorem quadratic_accepts_iff_negative_definite : forall c, no_maximum c = false <-> negdef c.
+Proof. exact no_maximum_iff. Qed.
+Print Assumptions quadratic_accepts_iff_negative_definite.
+
+(* the vertex formula of lines 326-327: for c00 + c10 x + c01 y + c11 xy + c20 x^2 + c02 y^2
+   with negative definite Hessian, (xm, ym) is a critical point, the only one, and the
+   strict global maximum *)
+Theorem quadratic_vertex : forall c00 c,
+  negdef c ->
+  critical c (vertex_x c) (vertex_y c) /\
+  (forall x y, critical c x y -> x == vertex_x c /\ y == vertex_y c) /\
+  (forall x y, quad_poly c00 c x y <= quad_poly c00 c (vertex_x c) (vertex_y c)) /\
+  (forall x y, quad_poly c00 c x y == quad_poly c00 c (vertex_x c) (vertex_y c) ->
+               x == vertex_x c /\ y == vertex_y c).
+Proof. exact quadratic_vertex_full. Qed.
+Print Assumptions quadratic_vertex.
+
+(* lines 319-335 return a value iff the fitted polynomial is negative definite with its
+   vertex strictly inside the image, and the value is that vertex *)
+Theorem quadratic_post_returns_vertex : forall c nx ny v,
+  quad_post c nx ny = Some v <-> negdef c /\ inside c nx ny /\ v = (vertex_x c, vertex_y c).
+Proof. exact quad_post_iff. Qed.
+Print Assumptions quadratic_post_returns_vertex.
+
+(* for ANY behaviour of numpy.linalg.lstsq: a value returned by centroid_quadratic is the
+   border pixel holding the maximum, or the vertex of the fitted polynomial *)
+Theorem quadratic_value_is_border_peak_or_vertex :
+  forall fit data mask xpeak ypeak fitbox search x y,
+  quadratic fit data mask xpeak ypeak fitbox search = QRVal x y ->
+  (exists xi yi, quad_pre data mask xpeak ypeak fitbox search = QEdge xi yi /\
+                 x = inject_Z xi /\ y = inject_Z yi) \/
+  (exists x0 x1 y0 y1 pts,
+      quad_pre data mask xpeak ypeak fitbox search = QFit x0 x1 y0 y1 pts /\
+      negdef (fit pts) /\ inside (fit pts) (snd (shape data)) (fst (shape data)) /\
+      x = vertex_x (fit pts) /\ y = vertex_y (fit pts)).
+Proof. exact quadratic_value_cases. Qed.
+Print Assumptions quadratic_value_is_border_peak_or_vertex.
+
+(* a least-squares solution of exactly quadratic data is the quadric itself, as soon as
+   the fitted pixels contain six points of a 3x3 block (pure algebra, no assumption) *)
+Theorem least_squares_recovers_exact_quadric : forall sol k c pts,
+  has_stencil pts -> on_quadric k c pts -> least_squares sol pts -> coef_eq c sol.
+Proof. exact least_squares_exact. Qed.
+Print Assumptions least_squares_recovers_exact_quadric.
+
+(* PARTIAL (library numerics): centroid_quadratic returns the vertex of an exactly
+   quadratic peak.  Assumed, not proved: numpy.linalg.lstsq returns a minimiser of the sum
+   of squared residuals ([least_squares (fit pts) pts]); premise [has_stencil pts] (the
+   fit box contains six unmasked pixels of a 3x3 block) is a premise on the input, not
+   derived from quad_pre.  Full statement = the same without those two premises for every
+   unmasked finite cutout of size >= 3 and fit box >= 3. *)
+Theorem quadratic_exact_peak_partial :
+  forall fit data mask xpeak ypeak fitbox search x0 x1 y0 y1 pts k c,
+  quad_pre data mask xpeak ypeak fitbox search = QFit x0 x1 y0 y1 pts ->
+  has_stencil pts -> on_quadric k c pts -> negdef c ->
+  inside c (snd (shape data)) (fst (shape data)) ->
+  least_squares (fit pts) pts ->
+  exists x y, quadratic fit data mask xpeak ypeak fitbox search = QRVal x y /\
+              x == vertex_x c /\ y == vertex_y c /\ critical c x y.
+Proof. exact quadratic_exact. Qed.
+Print Assumptions quadratic_exact_peak_partial.
+
+(* masked pixels' values are ignored by centroid_quadratic, whatever lstsq does *)
+Theorem quadratic_ignores_masked_values :
+  forall fit data data' m ny nx xpeak ypeak fitbox search,
+  rect ny nx data -> rect ny nx data' -> rect ny nx m ->
+  (forall y x, (y < ny)%nat -> (x < nx)%nat -> pixm (Some m) y x = false ->
+               pixd data y x = pixd data' y x) ->
+  quadratic fit data (Some m) xpeak ypeak fitbox search
+  = quadratic fit data' (Some m) xpeak ypeak fitbox search.
+Proof. exact quadratic_masked_values_ignored. Qed.
+Print Assumptions quadratic_ignores_masked_values.
+
+Close Scope Q_scope.
+
+(* ================================================================== *)
+(* centroid_sources (repaired loop)                                     *)
+(* ================================================================== *)
+(* E = pixel type of the error map, O = the other keyword arguments, R = result type of
+   the centroid function; the centroid function [f] is arbitrary *)
+
+(* result i is what the centroid function returns on the cutout of position i, computed
+   from the ORIGINAL mask, error map and keyword arguments ([per_source]) *)
+Theorem sources_acts_per_source :
+  forall (E O R : Type) (shift : R -> Z -> Z -> R) (nan : R)
+         (f : @cfun E O R) ev (kw : @kwargs E O) ps out,
+  sources shift nan f ev kw ps = Some out ->
+  length out = length ps /\
+  forall i p, nth_error ps i = Some p ->
+    exists r, nth_error out i = Some r /\ per_source shift nan f ev kw p = Some r.
+Proof. exact sources_index. Qed.
+Print Assumptions sources_acts_per_source.
+
+(* complete description, including the error cases *)
+Theorem sources_characterisation :
+  forall (E O R : Type) (shift : R -> Z -> Z -> R) (nan : R)
+         (f : @cfun E O R) ev (kw : @kwargs E O) ps,
+  sources shift nan f ev kw ps =
+  match ps with
+  | [] => None
+  | _ => if forallb (pos_ok ev) ps then all_some (map (per_source shift nan f ev kw) ps) else None
+  end.
+Proof. exact sources_char. Qed.
+Print Assumptions sources_characterisation.
+
+Theorem sources_returns_iff :
+  forall (E O R : Type) (shift : R -> Z -> Z -> R) (nan : R)
+         (f : @cfun E O R) ev (kw : @kwargs E O) ps,
+  (exists out, sources shift nan f ev kw ps = Some out) <->
+  ps <> [] /\ (forall p, In p ps -> pos_ok ev p = true /\ per_source shift nan f ev kw p <> None).
+Proof. exact sources_some_iff. Qed.
+Print Assumptions sources_returns_iff.
+
+(* what [per_source] hands to the centroid function *)
+Theorem per_source_call_arguments :
+  forall (E O R : Type) (shift : R -> Z -> Z -> R) (nan : R)
+         (f : @cfun E O R) ev (kw : @kwargs E O) xp yp,
+  let '(ny, nx) := shape (e_data ev) in
+  let '(fy, fx) := shape (e_foot ev) in
+  let '((y0, y1), (sy0, sy1)) := axis_slices ny fy yp in
+  let '((x0, x1), (sx0, sx1)) := axis_slices nx fx xp in
+  let fm := map (map negb) (crop sy0 sy1 sx0 sx1 (e_foot ev)) in
+  let mc := match e_mask ev with
+            | Some m => map2 (map2 orb) (crop y0 y1 x0 x1 m) fm
+            | None => fm
+            end in
+  let both := match (if cf_xp f then k_xpeak kw else None), (if cf_yp f then k_ypeak kw else None) with
+              | Some _, Some _ => true | _, _ => false end in
+  per_source shift nan f ev kw (xp, yp) =
+  if forallb (forallb (fun b => b)) mc then None
+  else Some (call shift nan f
+               {| a_data := crop y0 y1 x0 x1 (e_data ev);
+                  a_mask := mc;
+                  a_error := if cf_err f then option_map (crop y0 y1 x0 x1) (k_error kw) else None;
+                  a_xpeak := if both then option_map (fun a => (a - inject_Z x0)%Q) (k_xpeak kw) else None;
+                  a_ypeak := if both then option_map (fun b => (b - inject_Z y0)%Q) (k_ypeak kw) else None;
+                  a_other := k_other kw |} (x0, y0)).
+Proof. exact per_source_args. Qed.
+Print Assumptions per_source_call_arguments.
+
+(* a cutout is a translation: pixel (j, i) of the cutout is pixel (y0 + j, x0 + i) *)
+Theorem cutout_is_translation : forall (A : Type) (d : A) y0 y1 x0 x1 (im : img A) j i,
+  (j < Z.to_nat (y1 - y0))%nat -> (i < Z.to_nat (x1 - x0))%nat ->
+  (Z.to_nat y0 + j < length im)%nat ->
+  nth i (nth j (crop y0 y1 x0 x1 im) []) d = nth (Z.to_nat x0 + i) (nth (Z.to_nat y0 + j) im []) d.
+Proof. exact (@crop_nth). Qed.
+Print Assumptions cutout_is_translation.
+
+(* independent of the other positions and of the place in the list *)
+Theorem sources_independent_of_other_positions :
+  forall (E O R : Type) (shift : R -> Z -> Z -> R) (nan : R)
+         (f : @cfun E O R) ev (kw : @kwargs E O) ps ps' out out' i j p,
+  sources shift nan f ev kw ps = Some out -> sources shift nan f ev kw ps' = Some out' ->
+  nth_error ps i = Some p -> nth_error ps' j = Some p ->
+  nth_error out i = nth_error out' j.
+Proof. exact sources_independent. Qed.
+Print Assumptions sources_independent_of_other_positions.
+
+(* independent of the order *)
+Theorem sources_independent_of_order :
+  forall (E O R : Type) (shift : R -> Z -> Z -> R) (nan : R)
+         (f : @cfun E O R) ev (kw : @kwargs E O) ps ps' out,
+  Permutation ps ps' -> sources shift nan f ev kw ps = Some out ->
+  exists out', sources shift nan f ev kw ps' = Some out' /\
+               Permutation (combine ps out) (combine ps' out').
+Proof. exact sources_permutation. Qed.
+Print Assumptions sources_independent_of_order.
+
+(* ---- the loop before the repair (photutils/centroids/core.py:495-507 of /repo) ---- *)
+(* REFUTED: with an error map and two positions, result 1 is not what the centroid
+   function returns on cutout 1 (the second source received a cutout of the first
+   source's error cutout).  The same input is replayed on the implementation by
+   harness/c17.py (WITNESSES). *)
+Theorem sources_unrepaired_error_refuted :
+  exists (f : @cfun Z unit fres) ev kw ps out i p r,
+    sources_unrepaired fshift None f ev kw ps = Some out /\
+    nth_error ps i = Some p /\
+    per_source fshift None f ev kw p = Some r /\
+    nth_error out i <> Some r.
+Proof. exact unrepaired_error_witness. Qed.
+Print Assumptions sources_unrepaired_error_refuted.
+(* REFUTED: the same with xpeak / ypeak (offsets of earlier cutouts accumulate) *)
+Theorem sources_unrepaired_peak_refuted :
+  exists (f : @cfun Z unit fres) ev kw ps out i p r,
+    sources_unrepaired fshift None f ev kw ps = Some out /\
+    nth_error ps i = Some p /\
+    per_source fshift None f ev kw p = Some r /\
+    nth_error out i <> Some r.
+Proof. exact unrepaired_peak_witness. Qed.
+Print Assumptions sources_unrepaired_peak_refuted.
+(* the defect is confined to those keywords: without error / xpeak / ypeak reaching the
+   centroid function the old loop equals the repaired one *)
+Theorem sources_unrepaired_agrees_without_carried_keywords :
+  forall (E O R : Type) (shift : R -> Z -> Z -> R) (nan : R)
+         (f : @cfun E O R) ev (kw : @kwargs E O) ps,
+  k_error (filter_kwargs f kw) = None -> k_xpeak (filter_kwargs f kw) = None ->
+  k_ypeak (filter_kwargs f kw) = None ->
+  sources_unrepaired shift nan f ev kw ps = sources shift nan f ev kw ps.
+Proof. exact sources_unrepaired_agrees. Qed.
+Print Assumptions sources_unrepaired_agrees_without_carried_keywords.
+
+(* ================================================================== *)
+(* non-vacuity                                                          *)
+(* ================================================================== *)
+Example rect_example : rect 2 3 [[Some 1; Some 2; None]; [Some 0; Some 5; Some 1]].
+Proof. split; [reflexivity|]. intros [|[|y]] H; [reflexivity|reflexivity|exfalso; inversion H as [|? H1]; inversion H1 as [|? H2]; inversion H2]. Qed.
+
+(* a masked, partly non-finite 2x3 image: centroid (9/9, 6/9) = (1, 2/3) *)
+Example com_example :
+  com [[Some 1; Some 2; None]; [Some 0; Some 5; Some 1]]
+      (Some [[false; false; false]; [true; false; false]]) = ComAt 9 6 9.
+Proof. vm_compute. reflexivity. Qed.
+
+(* a point-symmetric source about the half-integer centre (1/2, 0) *)
+Example symmetric_example :
+  let data := [[Some 3; Some 3]] in
+  rect 1 2 data /\
+  (forall y x : Z, wZ data None y x = wZ data None (0 - y) (1 - x)) /\
+  com data None = ComAt 3 0 6.
+Proof.
+  assert (R : rect 1 2 [[Some 3; Some 3]]).
+  { split; [reflexivity|]. intros [|y] H; [reflexivity|]. exfalso. inversion H as [|? H1]. inversion H1. }
+  split; [exact R|]. split; [|reflexivity].
+  assert (Out : forall y x, y <> 0 \/ (x <> 0 /\ x <> 1) -> wZ [[Some 3; Some 3]] None y x = 0).
+  { intros y x H. apply (wZ_outside _ _ 1 2 _ _ R). cbn. Lia.lia. }
+  intros y x.
+  destruct (Z.eq_dec y 0) as [->|Hy]; [|rewrite !Out by Lia.lia; reflexivity].
+  destruct (Z.eq_dec x 0) as [->|Hx]; [reflexivity|].
+  destruct (Z.eq_dec x 1) as [->|Hx1]; [reflexivity|].
+  rewrite !Out by Lia.lia. reflexivity.
+Qed.
+
+(* all premises of quadratic_exact_peak_partial hold together: 5x5 samples of
+   -(4x-9)^2 - (4y-7)^2 (vertex (9/4, 7/4)), 3x3 fit box around the maximum pixel (2, 2) *)
+Definition ex_c : coef := (72 # 1, 56 # 1, 0 # 1, - (16 # 1), - (16 # 1))%Q.
+Definition ex_data : img (option Z) :=
+  map (fun y => map (fun x => Some (- (4 * x - 9) * (4 * x - 9) - (4 * y - 7) * (4 * y - 7))) [0; 1; 2; 3; 4])
+      [0; 1; 2; 3; 4].
+Example quadratic_example :
+  exists pts,
+    quad_pre ex_data None None None (3, 3) None = QFit 1 4 1 4 pts /\
+    has_stencil pts /\ on_quadric (- (130 # 1))%Q ex_c pts /\ negdef ex_c /\ inside ex_c 5 5 /\
+    least_squares ((fun _ => ex_c) pts) pts /\
+    quadratic (fun _ => ex_c) ex_data None None None (3, 3) None = QRVal (vertex_x ex_c) (vertex_y ex_c) /\
+    (vertex_x ex_c == 9 # 4)%Q /\ (vertex_y ex_c == 7 # 4)%Q.
+Proof.
+  eexists. split; [vm_compute; reflexivity|].
+  assert (Hq : on_quadric (- (130 # 1))%Q ex_c
+                 [(1, 1, -34); (2, 1, -10); (3, 1, -18); (1, 2, -26); (2, 2, -2); (3, 2, -10);
+                  (1, 3, -50); (2, 3, -26); (3, 3, -34)]).
+  { intros x y v Hin. cbn [In] in Hin.
+    repeat (destruct Hin as [Hin|Hin]; [injection Hin as <- <- <-; vm_compute; reflexivity|]).
+    destruct Hin. }
+  split; [exists 1, 1, (-34), (-10), (-18), (-26), (-50), (-2); cbn; tauto|].
+  split; [exact Hq|].
+  split; [split; vm_compute; reflexivity|].
+  split; [repeat split; vm_compute; reflexivity|].
+  split.
+  { exists (- (130 # 1))%Q. intros k' c'. apply resid_zero_iff in Hq.
+    eapply Qle_trans; [exact Hq|apply resid_nonneg]. }
+  split; [vm_compute; reflexivity|]. split; vm_compute; reflexivity.
+Qed.
+
+(* centroid_sources with an error map and two positions (the inputs of the refutation):
+   the repaired loop returns two finite results, each equal to [per_source] *)
+Example sources_example :
+  exists out, sources fshift None cf_probe (mk_env ones6 foot3 None)
+                      (mk_kwargs (Some err6) None None tt) two_pos = Some out /\
+              Forall2 (fun p r => per_source fshift None cf_probe (mk_env ones6 foot3 None)
+                                             (mk_kwargs (Some err6) None None tt) p = Some r)
+                      two_pos out /\
+              Forall (fun r => r <> None) out.
+Proof. exact repaired_error_example. Qed.
